@@ -161,7 +161,7 @@ ParamOf(loc, leaf, req, cf) ==
   LET p0 == [k \in DOMAIN leaf \cup {"name", "in", "required"} |->
                IF k = "name" THEN "p" ELSE IF k = "in" THEN loc
                ELSE IF k = "required" THEN (req \/ loc = "path") ELSE leaf[k]]
-  IN IF leaf.type = "array" THEN Put(p0, "cf", cf) ELSE p0
+  IN IF leaf.type = "array" /\ cf # "none" THEN Put(p0, "cf", cf) ELSE p0      \* "none": collectionFormat left out (= csv)
 
 ObjWith(leaf, req) ==
   IF req THEN [type |-> "object", properties |-> [p |-> leaf], required |-> <<"p">>]
